@@ -10,6 +10,11 @@ import LenaModel.Model.C09
   OP:  {"o":"f","v":VALUE} | {"o":"c"} | {"o":"r"}
   VALUE: {"d":DATA,"c":{key:int|null}|null}   (+ "k": int, the group key, for groupby)
   DATA: int | [m,e] (dsum: m·2^e) | [ints] (vec) | [x,y] (graph)
+  further EL: {"k":"histnd","edges":[i]|[[i]],"bins":NESTED|null,"make_bins":NESTED|null,"iv":i} (data int | [ints]),
+     {"k":"meanover","inner":{"k":"sum","total0":i}|{"k":"count",..}|{"k":"storeitems"},"poe":b},
+     {"k":"countrun","name":s,"count0":i} (extra OP {"o":"run","vs":[VALUE]} -> {"run":[OUT]}),
+     vec: "construct": null|"variadic"|k, inner also {"k":"meand","poe":b} | {"k":"dsum"} (data [[m,e],..]);
+     groupby VALUE "k": null = the key cannot be rendered
   OBS: {"f":null|ERR} | {"c":[OUT,...]} | {"ce":ERR} | "r" -/
 open Lean Lena.Drv Lena.C09
 
@@ -19,6 +24,10 @@ def errName : Err → String
   | .runtimeError => "LenaRuntimeError"
   | .valueError => "LenaValueError"
   | .typeError => "LenaTypeError"
+  | .lenaIndexError => "LenaIndexError"
+  | .pyTypeError => "Other:TypeError"
+  | .assertionError => "Other:AssertionError"
+  | .unmodelled => "unmodelled"
 
 def leafJ : Leaf → Json
   | none => Json.null
@@ -57,6 +66,43 @@ def histJ (h : Hist) : Json := Json.mkObj [("bins", ofIntList h.bins), ("n_out",
 def graphOutJ (g : GraphOut) : Json :=
   Json.mkObj [("pts", ofList ptJ g.points), ("scale", leafJ g.scale), ("c", ctxJ g.ctx)]
 
+
+partial def narrJ : Lena.NArr Int → Json
+  | .leaf i => ofInt i
+  | .node xs => Json.arr (xs.map narrJ).toArray
+
+partial def narr? (j : Json) : Option (Lena.NArr Int) :=
+  match int? j with
+  | some i => some (.leaf i)
+  | none => match arr? j with
+    | some a => (a.toList.mapM narr?).map Lena.NArr.node
+    | none => none
+
+def edges? (j : Json) : Option (Lena.C06.Edges Int) :=
+  match intList? j with
+  | some l => some (.flat l)
+  | none => ((arr? j).bind (fun a => a.toList.mapM intList?)).map Lena.C06.Edges.nested
+
+def coord? (j : Json) : Option (Lena.C06.Coord Int) :=
+  match int? j with
+  | some i => some (.scalar i)
+  | none => (intList? j).map Lena.C06.Coord.tuple
+
+def histNdJ (h : Lena.C06.Hist Int Int) : Json := Json.mkObj [("bins", narrJ h.bins), ("n_out", ofInt h.nOut)]
+
+def dy? (j : Json) : Option Dy := (pair? j).map (fun p => (⟨p.1, p.2⟩ : Dy))
+def dyList? (j : Json) : Option (List Dy) := (arr? j).bind (fun a => a.toList.mapM dy?)
+
+def builtJ {ο : Type} (enc : ο → Json) : Built ο → Json
+  | .made args => Json.mkObj [("made", ofList (ofOpt enc) args)]
+  | .tuple row => ofList (ofOpt enc) row
+
+def construct? (j : Json) : Option Construct :=
+  if j.isNull then some .none
+  else match str? j with
+    | some "variadic" => some .variadic
+    | _ => (nat? j).map Construct.arity
+
 def parseOps {ι : Type} (dec : Json → Option ι) (ops : List Json) : Option (List (Op ι)) :=
   ops.mapM (fun j =>
     match str? (getD j "o") with
@@ -81,22 +127,65 @@ def runM {σ ι ο : Type} (m : Machine σ ι ο) (dec : Json → Option ι) (en
     let r := m.run m.init h
     Json.mkObj ([("obs", ofList (obsJ enc) r.2)] ++ extra r.1)
 
-/-- Vectorize around an inner machine -/
-def runVec {σ ο : Type} (m : Machine σ (Item Int) ο) (enc : ο → Json) (el : Json) (ops : List Json) : Json :=
-  match bool? (getD el "list"), nat? (getD el "nseq"), (if (getD el "dim").isNull then some none else (nat? (getD el "dim")).map some) with
-  | some isList, some nseq, some dim =>
+/-- Vectorize around an inner machine (data of type `δ`, decoded by `decL`) -/
+def runVecG {σ δ ο : Type} (m : Machine σ (Item δ) ο) (decL : Json → Option (List δ)) (enc : ο → Json)
+    (el : Json) (ops : List Json) : Json :=
+  match bool? (getD el "list"), nat? (getD el "nseq"),
+      (if (getD el "dim").isNull then some none else (nat? (getD el "dim")).map some), construct? (getD el "construct") with
+  | some isList, some nseq, some dim, some c =>
     match mkVectorizeDim isList nseq dim with
     | .error e => Json.mkObj [("init_err", errName e)]
     | .ok n =>
-      -- "mul": k  =  every component is `FillComputeSeq(lambda x: k*x, inner)` (k = 1: `FillComputeSeq(inner)`)
-      let m := match int? (getD el "mul") with
-        | some k => mapDataM (· * k) m
-        | none => m
-      let vm := vectorizeM m n
+      let vm := vectorizeCM m n c
       -- a list of `n` sequences: `init` has exactly `n` copies (`max n 1` differs only for the empty list)
       let vm := if isList && n == 0 then { vm with init := ⟨[], []⟩ } else vm
-      runM vm (item? intList?) (itemJ (ofList (ofOpt enc))) ops
-  | _, _, _ => err "bad vec args"
+      runM vm (item? decL) (itemJ (builtJ enc)) ops
+  | _, _, _, _ => err "bad vec args"
+
+/-- components over integers; "mul": k = every component is `FillComputeSeq(lambda x: k*x, inner)` -/
+def runVec {σ ο : Type} (m : Machine σ (Item Int) ο) (enc : ο → Json) (el : Json) (ops : List Json) : Json :=
+  let m := match int? (getD el "mul") with
+    | some k => mapDataM (· * k) m
+    | none => m
+  runVecG m intList? enc el ops
+
+/-- `Mean(sum_seq)` around an arbitrary sum sequence -/
+def runMeanOver (el : Json) (ops : List Json) : Json :=
+  let inner := getD el "inner"
+  match bool? (getD el "poe") with
+  | none => err "bad meanover args"
+  | some poe =>
+    match str? (getD inner "k") with
+    | some "sum" =>
+      match int? (getD inner "total0") with
+      | some t => runM (meanOverM (sumM t) poe) (item? int?) (itemJ ratJ) ops
+      | none => err "bad meanover sum"
+    | some "count" =>
+      match str? (getD inner "name"), int? (getD inner "count0") with
+      | some n, some c => runM (meanOverM (countM Int ⟨n, c⟩) poe) (item? int?) (itemJ ratJ) ops
+      | _, _ => err "bad meanover count"
+    | some "storeitems" => runM (meanOverM storeItemsM poe) (item? int?) (itemJ ratJ) ops
+    | _ => err "unknown sum sequence"
+
+/-- Count driven by `run(flow)` as well as fill / compute / reset: {"o":"run","vs":[VALUE,..]} -> {"run":[OUT,..]} -/
+def runCountRun (cfg : CountCfg) (ops : List Json) : Json :=
+  let m := countM Int cfg
+  let step := fun (acc : Option (CountSt × List Json)) (j : Json) =>
+    match acc with
+    | none => none
+    | some (s, out) =>
+      match str? (getD j "o") with
+      | some "run" =>
+        match (arr? (getD j "vs")).bind (fun a => a.toList.mapM (item? int?)) with
+        | some vs => let r := Count.run cfg s vs; some (r.1, out ++ [Json.mkObj [("run", ofList (itemJ ofInt) r.2)]])
+        | none => none
+      | some "f" => (item? int? (getD j "v")).map (fun v => let r := m.step s (.fill v); (r.1, out ++ [obsJ (itemJ ofInt) r.2]))
+      | some "c" => let r := m.step s .compute; some (r.1, out ++ [obsJ (itemJ ofInt) r.2])
+      | some "r" => let r := m.step s .reset; some (r.1, out ++ [obsJ (itemJ ofInt) r.2])
+      | _ => none
+  match ops.foldl step (some (m.init, [])) with
+  | none => err "bad countrun ops"
+  | some (_, out) => Json.mkObj [("obs", Json.arr out.toArray)]
 
 def handle (j : Json) : Json :=
   let el := getD j "el"
@@ -136,8 +225,8 @@ def handle (j : Json) : Json :=
     | some g => runM (storeFilledM (Item Int) g) (item? int?) (storedJ (itemJ ofInt)) ops
     | _ => err "bad store args"
   | some "groupby" =>
-    runM (groupByM Int (Item Int)) (fun v => do
-      let k ← int? (getD v "k")
+    runM (groupByOptM Int (Item Int)) (fun v => do
+      let k ← optInt (getD v "k")        -- null: the key cannot be rendered (`to_string` raises)
       let it ← item? int? v
       pure (k, it)) (storedJ (itemJ ofInt)) ops
   | some "vec" =>
@@ -163,6 +252,11 @@ def handle (j : Json) : Json :=
       match bool? (getD inner "group") with
       | some g => runVec (storeFilledM (Item Int) g) (storedJ (itemJ ofInt)) el ops
       | _ => err "bad inner store args"
+    | some "meand" =>
+      match bool? (getD inner "poe") with
+      | some b => runVecG (meanDM b) dyList? (itemJ ratJ) el ops
+      | _ => err "bad inner meand args"
+    | some "dsum" => runVecG (dsumM ⟨0, 0⟩) dyList? (itemJ decJ) el ops
     | _ => err "unknown inner element"
   | some "hist" =>
     let optList (j : Json) : Option (Option (List Int)) := if j.isNull then some none else (intList? j).map some
@@ -173,6 +267,20 @@ def handle (j : Json) : Json :=
       | .error e => Json.mkObj [("init_err", errName e)]
       | .ok s0 => runM (histogramM cfg s0) (item? int?) (itemJ histJ) ops
     | _, _, _, _ => err "bad hist args"
+  | some "histnd" =>
+    let optN (j : Json) : Option (Option (Lena.NArr Int)) := if j.isNull then some none else (narr? j).map some
+    match edges? (getD el "edges"), optN (getD el "bins"), optN (getD el "make_bins"), int? (getD el "iv") with
+    | some edges, some bins, some mb, some iv =>
+      let cfg : HistNdCfg := ⟨edges, bins, mb, iv⟩
+      match HistogramNd.new cfg with
+      | .error e => Json.mkObj [("init_err", errName e)]
+      | .ok s0 => runM (histogramNdM cfg s0) (item? coord?) (itemJ histNdJ) ops
+    | _, _, _, _ => err "bad histnd args"
+  | some "meanover" => runMeanOver el ops
+  | some "countrun" =>
+    match str? (getD el "name"), int? (getD el "count0") with
+    | some n, some c => runCountRun ⟨n, c⟩ ops
+    | _, _ => err "bad countrun args"
   | some "graph" =>
     match optInt (getD el "scale0"), bool? (getD el "sort"), bool? (getD el "reset_scale") with
     | some sc, some so, some rs => runM (graphM ⟨sc, so, rs⟩) (item? pair?) graphOutJ ops
